@@ -398,7 +398,7 @@ class Gen:
             return copy.deepcopy(r.choice(made))
         lf = self._leaf(mode, rich)
         if lf["evs"]:
-            self.made = made + [lf]
+            self.made = made + [copy.deepcopy(lf)]      # (a copy: the leaf itself may be edited later)
         return lf
 
     def _leaf(self, mode=None, rich=None):
@@ -442,7 +442,7 @@ class Gen:
     def tree(self, depth, ops, leaf_mode=None, rich=None):
         t = self._tree(depth, ops, leaf_mode, rich)
         if t["op"] != "stored":
-            self.subtrees = (getattr(self, "subtrees", []) if self.next_id > 1 else []) + [t]
+            self.subtrees = (getattr(self, "subtrees", []) if self.next_id > 1 else []) + [copy.deepcopy(t)]
         return t
 
     def _tree(self, depth, ops, leaf_mode=None, rich=None):
